@@ -28,7 +28,7 @@ ASSUMPTIONS = [
     "(USE_BLOCKERS = False); the theorems hold for every visibility function",
 ]
 
-USE_BLOCKERS = False
+USE_BLOCKERS = True
 KIND_NAMES = {0: "absolute", 1: "centred_self", 2: "centred_noself", 3: "stacked", 4: "position",
               5: "ammo", 6: "window"}
 OBSERVATIONS = {"n": 0}
